@@ -11,7 +11,7 @@ C14_COLOURS = "[style.colors]\nprimary = \"#000000\"\nerror = \"#FFfe01\"\nhighl
 PROPS = {
     "C01": {
         "timeouts_not_mine": True,
-        "lean_modules": ["Props.Clean", "Props.Cells", "Props.Facts19", "Props.C01p", "Props.Gen01p", "Props.GenT01p", "Props.Gen15h", "Props.GenT15h"],
+        "lean_modules": ["Props.Clean", "Props.Cells", "Props.Facts19", "Props.C01p", "Props.Gen01p", "Props.GenT01p", "Props.Gen15h", "Props.GenT15h", "Props.Gen16m", "Props.GenT01m"],
         "groups": [{"name": "render", "quick": 2500, "thorough": 60000}, {"name": "C01misc", "quick": 2000, "thorough": 60000},
                    {"name": "C14", "quick": 1500, "thorough": 40000}, {"name": "C06", "quick": 1200, "thorough": 30000, "workers": 12},
                    {"name": "present", "quick": 800, "thorough": 20000, "workers": 12},
@@ -371,7 +371,7 @@ PROPS = {
         "assumptions": ["width >= 1 for the width clause"],
     },
     "C16": {
-        "lean_modules": ["Props.C16b", "Props.Gen16", "Props.GenT16", "Props.Gen16v", "Props.GenT16v", "Props.Gen07s", "Props.GenT07s"],
+        "lean_modules": ["Props.C16b", "Props.Gen16", "Props.GenT16", "Props.Gen16v", "Props.GenT16v", "Props.Gen07s", "Props.GenT07s", "Props.Gen16m", "Props.GenT16m"],
         "groups": [{"name": "C16", "quick": 6000, "thorough": 200000}, {"name": "C07", "quick": 160, "thorough": 4000, "workers": 16},
                    {"name": "C16x", "quick": 0, "thorough": 7, "workers": 1},
                    # concurrent keys, loads and resizes: every frame as tall as the state says when it is drawn
@@ -392,7 +392,7 @@ PROPS = {
 
 MANIFEST_TEXT = {
     "C01": {
-        "text": "Lean theorems: Scrub leaves no control character but newline; clean styled text (printable characters, newlines, well-formed SGR around single characters) is terminal-safe and is closed under the whole style layer, every layout function and the HTML/Markdown, gemtext and plain-text renderers for every forest (arbitrary strings in text nodes and attributes), source and width; error text through style.Problem and the status line through SetLength are safe for every message; accepted configurations have well-formed colours. What an item shows (String, Preview, Name of Post, Actor, Activity, Failure with header, center, supplement, footer, Collection.Size, style.Problem, ansi.Scrub) is translated to Lean on every run (extract/go2lean21.go -> Generated/GoPresent.lean) and proved equal to the presentation model for every field content, width and colours, without panics (Props/Gen01p.lean), so the item-level cleanliness theorems hold of the translated code (Props/GenT01p.lean). Otherwise tied to the code by differential correspondence on the renderers, style.Problem, Scrub, SetLength; the Safe predicate is evaluated on every implementation output.",
+        "text": "Lean theorems: Scrub leaves no control character but newline; clean styled text (printable characters, newlines, well-formed SGR around single characters) is terminal-safe and is closed under the whole style layer, every layout function and the HTML/Markdown, gemtext and plain-text renderers for every forest (arbitrary strings in text nodes and attributes), source and width; error text through style.Problem and the status line through SetLength are safe for every message; accepted configurations have well-formed colours. What an item shows (String, Preview, Name of Post, Actor, Activity, Failure with header, center, supplement, footer, Collection.Size, style.Problem, ansi.Scrub) is translated to Lean on every run (extract/go2lean21.go -> Generated/GoPresent.lean) and proved equal to the presentation model for every field content, width and colours, without panics (Props/Gen01p.lean), so the item-level cleanliness theorems hold of the translated code (Props/GenT01p.lean). printRaw of main.go, the last function a frame passes through, is translated too (extract/go2lean25.go -> Generated/GoMain.lean): for a clean frame it writes cursor-home, clear-screen and the frame with a carriage return before every line feed and nothing else (Props/Gen16m.lean, Props/GenT01m.lean terminal_gets_frame_and_cr). Otherwise tied to the code by differential correspondence on the renderers, style.Problem, Scrub, SetLength; the Safe predicate is evaluated on every implementation output.",
         "design_ref": "DESIGN.md §5 C01",
         "note": "Trusted: Lean kernel; correspondence check (testing); x/net/html, goldmark; element names are control-free; URL.Host of dialled hosts.",
         "technique": "Lean 4 proof (Clean invariant, mutual induction over the renderer) + differential correspondence with a safety predicate on every output",
@@ -506,7 +506,7 @@ MANIFEST_TEXT = {
         "technique": "Lean 4 proof (wrap_width + cache invariant by induction over the width sequence) + differential correspondence",
     },
     "C16": {
-        "text": "Lean theorems for all prefix/centred/suffix texts and all heights >= 1: CenterVertically returns exactly h lines, centred as specified; ReplaceLastLine keeps the height for texts of >= 2 lines; SetLength is newline-free. Tied to ansi.go twice: Height, CenterVertically, ReplaceLastLine, SetLength and Squash are translated to Lean on every run (extract/go2lean2.go -> Generated/GoAnsi.lean) and proved equal to the model's functions (Props/Gen16.lean); and by differential correspondence; the height predicate is evaluated on every implementation output. (*State).view of ui/ui.go itself - the walk over the feed, the Loading lines, the footer switch - is translated too (extract/go2lean12.go -> Generated/GoView.lean) and proved equal to Ui.frame applied to the parts and the footer the model computes (Props/Gen16v.lean), so that every frame of the translated view has exactly `height` lines for height >= 2, in every mode, whatever the items render to (Props/GenT16v.lean). SetWidthHeight is translated as well (extract/go2lean24.go -> Generated/GoSwitch.lean) and proved equal to Ui.setWidthHeight (Props/Gen07s.lean): a call with a new size stores it and draws exactly one frame, from the state with the new size, which the translated view makes exactly `height` lines; a call with the old size draws nothing (Props/GenT07s.lean).",
+        "text": "Lean theorems for all prefix/centred/suffix texts and all heights >= 1: CenterVertically returns exactly h lines, centred as specified; ReplaceLastLine keeps the height for texts of >= 2 lines; SetLength is newline-free. Tied to ansi.go twice: Height, CenterVertically, ReplaceLastLine, SetLength and Squash are translated to Lean on every run (extract/go2lean2.go -> Generated/GoAnsi.lean) and proved equal to the model's functions (Props/Gen16.lean); and by differential correspondence; the height predicate is evaluated on every implementation output. (*State).view of ui/ui.go itself - the walk over the feed, the Loading lines, the footer switch - is translated too (extract/go2lean12.go -> Generated/GoView.lean) and proved equal to Ui.frame applied to the parts and the footer the model computes (Props/Gen16v.lean), so that every frame of the translated view has exactly `height` lines for height >= 2, in every mode, whatever the items render to (Props/GenT16v.lean). SetWidthHeight is translated as well (extract/go2lean24.go -> Generated/GoSwitch.lean) and proved equal to Ui.setWidthHeight (Props/Gen07s.lean): a call with a new size stores it and draws exactly one frame, from the state with the new size, which the translated view makes exactly `height` lines; a call with the old size draws nothing (Props/GenT07s.lean). main.go - the size poller's round, the key loop's round, printRaw, the start-up sequence - and (*State).SetWidthHeight are translated too (extract/go2lean25.go -> Generated/GoMain.lean) and proved equal to Model/Main.lean (Props/Gen16m.lean): the poller hands exactly the size it read to SetWidthHeight every round, so in every history of poll rounds and keys every frame drawn after a round that read (w, h) and before the next is drawn from a state of that size, has h lines for h >= 2 and is written by printRaw as the clear-screen prefix and h - 1 CR LF pairs (Props/GenT16m.lean; Update is assumed to leave width and height alone - its translation does not carry them).",
         "design_ref": "DESIGN.md §5 C16",
         "note": "Trusted: Lean kernel; correspondence check (testing); strings.Split/Join/Count/Repeat/LastIndex as modelled on character lists.",
         "technique": "Lean 4 proof (list lemmas on split/join) over a model proved equal to the Lean translation of the layout functions regenerated on every run + differential correspondence",
